@@ -260,7 +260,13 @@ def check_fp(n=3000, seed=0):
             bad.append({"op": "int", "x": x, "cpython": int(x), "z3": ti})
         if ri != round(x):
             bad.append({"op": "round", "x": x, "cpython": round(x), "z3": ri})
-    return {"cases": n * 5, "n_disagreements": len(bad), "disagreements": bad[:10]}
+        # round(x, n): the binary128 model of SymFloat.__round__ against CPython (incl. exact decimal ties)
+        nd = rnd.choice([1, 2, 2, 3])
+        xs = rnd.choice([a, rnd.randrange(-400000, 700000) / 1000, rnd.randrange(-40000, 70000) / 100 + 0.005, rnd.randrange(0, 1000) / 8])
+        rv = V.fp_value(z3.simplify(V.SymFloat(z3.FPVal(xs, V.FP)).__round__(nd).e))
+        if rv != round(xs, nd):
+            bad.append({"op": f"round(x,{nd})", "x": xs, "cpython": round(xs, nd), "z3": rv})
+    return {"cases": n * 6, "n_disagreements": len(bad), "disagreements": bad[:10]}
 
 
 def check_stubs(n=4000, seed=0):
